@@ -11,6 +11,13 @@ repository map.  What is proved here, for **every** number of goroutines, every 
 * `pool_noninterference` (+ `_render`, `_parse`) — each goroutine's outputs are those of the same code run alone;
 * `pool_progress` — a goroutine with work left is never blocked by the others (Get falls through to New);
 * `pool_discipline_from_source` — the hypothesis of the two theorems, read off the generated `poolUsers` table;
+* `globals_written_only_at_init` — read off the generated write census (`libGlobalWrites`, `serverGlobalWrites`,
+  `…GlobalMethodCalls`): no function of package `ach` or `server` other than `init` assigns to a package-level variable,
+  deletes from / clears one, takes its address or passes a package-level map, slice or pointer to a callee; the only
+  method calls on package-level variables are the pool's `Get`/`Put` (inside `getBuffer`/`saveBuffer`, the model above),
+  `regexp.MatchString` (documented safe for concurrent use) and, in the server, the Prometheus counters and an error's
+  `Error()`.  So the tables (`returnCodeDict`, `changeCodeDict`, …) one file's validation reads are never written by
+  another's: a result cannot depend on which other files were processed before or meanwhile;
 * `pool_violation_counterexample` — without the discipline a *disciplined* goroutine's output is corrupted;
 * `repo_distinct_keys_commute` — repository requests on different file IDs commute (responses and final store).
 
@@ -22,11 +29,7 @@ programs (`Job.ops`, `parseOps`, nested for `Reader.Read`) — tied to the sourc
 body hashes of `getBuffer`/`saveBuffer`; repository methods atomic (that is C18).
 
 **Not exhibited**: data races as such and the Go memory model (only the `-race` runs of the oracle speak about them);
-Prometheus counters; that package-level maps are written only during initialisation — *no fact is generated for it*
-(wanted: for every package-level variable of map/slice/pointer type in package `ach`, the list of functions, other
-than `init` and functions reachable only from package-level initialisers, containing an assignment `v = …`,
-`v[k] = …`, `delete(v, k)`, `clear(v)` or `&v`/`v` passed to a callee; Lean shape
-`globalWrites : List (String × List String)` = (variable, offending functions), expected all-empty lists);
+Prometheus counters;
 that `LookupChangeCode`/`LookupReturnCode`/`…CodeField()` hand out pointers INTO the shared dictionaries (a caller
 that writes through them would interfere with every other goroutine — nothing in package `ach` does).
 -/
@@ -52,6 +55,18 @@ def expectedHashes : List (String × Nat) :=
 theorem pool_discipline_from_source :
     (poolUsers.all fun u => !mayOutlivePut u) = true ∧ poolUsers.isEmpty = false ∧ poolHashes = expectedHashes := by
   decide
+
+/-- C19, no shared mutable state besides the pool (F): outside `init`, no function writes a package-level variable (in
+    any of the ways the census recognises), in the library or in the server; method calls on package-level variables are
+    exactly the pool's, a compiled regexp's matcher, the server's metric counters and an error value's `Error`. -/
+theorem globals_written_only_at_init :
+    libGlobalWrites = [] ∧ serverGlobalWrites = [] ∧
+    libGlobalMethodCalls = [("byteBufferPool", "getBuffer", "Get"), ("byteBufferPool", "saveBuffer", "Put"),
+      ("hhmmRegex", "validator.validateSimpleTime", "MatchString")] ∧
+    serverGlobalMethodCalls = [("errInvalidFile", "codeFrom", "Error"), ("filesCreated", "createFileEndpoint", "With"),
+      ("filesDeleted", "deleteFileEndpoint", "Add")] ∧
+    (["returnCodeDict", "changeCodeDict"].all fun v => libGlobalVars.any fun g => g.1 == v) = true := by
+  decide +kernel
 
 /-- hence every program built from those functions is disciplined -/
 theorem disciplined_of_source {p : List Op} (h : FromUsers poolUsers p) : Disciplined p := by
